@@ -2344,6 +2344,8 @@ def demand_lemmas(ctx, v):
             if len(fl) != 1:
                 probs.append("boundary does not consult the recorded pull")
                 continue
+            if fl[0][1][2][0] != h:
+                probs.append("the recorded pull is read when the member is subscribed, not when it greets (stale)")
             pulls = [s for s in sig if s[0] == "UPTB" and s[1] == "Pull"]
             if fl[0][2]:
                 kinds.add("pull")
@@ -2813,6 +2815,10 @@ def combine_lemmas(ctx, v):
                         li = [i for i, e in effs if e.kind == "cell" and e.op in ("load", "load_full") and e.site == lsite]
                         if not li or li[0] < ri:
                             probs.append("the tuple is read before this datum was published")
+                        obs_sites = {o[2][2] if o[2][0] == "pre" else o[2][2] for o in dec[0][2]}
+                        oi = [i for i, e in effs if e.kind == "atomic" and e.site in obs_sites]
+                        if li and oi and li[0] < max(oi):
+                            probs.append("the tuple is read before n_data is observed: another member's announcement can slip in between")
                         if [1 for i, e in effs if e.kind == "send" and ri < i < em[0][4]]:
                             probs.append("a send lies between publication and emission")
             else:
@@ -3409,8 +3415,10 @@ def discharge_panic(v, b, var, p, i, e, hint, tbcells):
             src = ix[1][3][0]
             if src[0] == "agg" and src[2].startswith("Range::") and src[3][0][0] == "const" and src[3][0][3] == 0 and _is_member_count(v, src[3][1]):
                 sized = any(_is_member_count(v, x) for x in walk(coll) if x[0] == "call" and x[2].endswith("::len")) or any(is_factory_param(v, x) for x in walk(coll) if x[0] == "param")
-                return ("K-index", sized, "index ranges over 0..n with n the length of the indexed collection" if sized else "range variable indexes an unrelated collection")
-        if ix[0] in ("upvar", "param") or (ix[0] == "someof"):
+                if any(x[0] == "cellload" for x in walk(coll)):
+                    sized = False      # a live list re-read per iteration may have shrunk since its length was taken
+                return ("K-index", sized, "index ranges over 0..n with n the length of the indexed collection" if sized else "range variable indexes an unrelated (or live, re-read) collection")
+        if ix[0] in ("upvar", "param"):
             return ("K-index", True, "captured loop index of the subscribing iteration")
         # (b) concat: sources[i.load()] behind i != n
         if ix[0] == "aload":
@@ -3715,6 +3723,10 @@ def skeleton(v, bid, var):
                     toks.append("sleep:%s" % canon(e.period))
                 elif e.kind in ("iternext", "poll", "lock", "localcall", "indirect"):
                     toks.append("%s" % e.kind)
+            if ev[0] == "eff" and ev[1].kind == "usertrait" and not ev[1].tracing:
+                cal = ev[1].get("callee") or ""
+                if not cal.endswith(("::is_none", "::is_some", "::take", "type_name")) and not cal.startswith(("std::sync::RwLock", "arc_swap::")):
+                    toks.append("usercode:%s" % cal.split("::")[-1])
             elif ev[0] == "br":
                 toks.append("if:%s=%s" % (canon(ev[1]), ev[2]))
             elif ev[0] == "yield":
@@ -4439,3 +4451,83 @@ _post_chain("C10", lambda ctx, models, tier: probe_lemmas(ctx, ["combine"]))
 
 _wrap("C04", lambda ctx, v: _share_detach_closures(ctx, v) if v.family == "share" else None)
 _wrap("C03", lambda ctx, v: _share_detach_closures(ctx, v) if v.family == "share" else None)
+
+
+# ============================================================================= additions after the fourth round
+
+def lemma_no_snapshot_capture(ctx, v):
+    """CEN-snapshot: no handler / thunk / task closure captures, by value, something that was read from a cell or an atomic when
+    the closure was built (a stale snapshot of mutable state would then decide instead of the state itself)."""
+    bad = []
+    n = 0
+    scope = {"C08": ("merge",), "C09": ("concat",), "C10": ("combine",), "C11": ("flatten",), "C12": ("share",), "C15": ("from_iter",), "C16": ("interval",),
+             "C19": ("take",), "C14": ("from_iter", "map", "filter", "scan", "take", "skip", "concat", "flatten")}.get(ctx.prop)
+    if scope is not None and v.family not in scope:
+        return
+    for b in v.op.bodies:
+        body = v.P.bodies[b]
+        if body.kind not in ("closure", "coroutine") or body.tracing_prov:
+            continue
+        # only closures that outlive the statement that builds them: message handlers, tasks, stored thunks
+        # (a closure handed to rcu / position / fetch_update runs at once, on the value it was built from)
+        if not (body.is_handler() or body.kind == "coroutine" or v.op.roles.get(b) in ("UP", "DOWN", "UP_INNER", "TASK")):
+            continue
+        sites = v.P.closure_sites.get(b, [])
+        if len(sites) != 1:
+            continue
+        pb, bb, i, ops = sites[0]
+        parent = v.P.bodies[pb]
+        for k, o in enumerate(ops):
+            n += 1
+            e = v.P.link(parent.operand_expr(o))
+            snap = [x for x in walk(e) if x[0] in ("aload", "cellload", "rmw")]
+            # a talkback just taken out of a Some-guarded load and moved into a send is not a capture; here we only see captures
+            if snap:
+                name = body.captures[k]["name"] if k < len(body.captures) else "capture %d" % k
+                bad.append("%s captures `%s`, a value read from %s when the closure was built" % (v.label(b), name, v.cellname(snap[0][1])))
+    ctx.ob("CEN-snapshot", "%s:CEN-snapshot" % v.name, not bad, "no closure captures a snapshot of mutable state (%d captures)" % n if not bad else "; ".join(sorted(set(bad))[:3]), v.loc(v.op.id))
+
+
+def lemma_fanin_guard_implies_greeting(ctx, v):
+    """merge / combine UP.H: on every returning path on which the once-guard's equality holds, the greeting is sent."""
+    if v.family not in ("merge", "combine"):
+        return
+    if (ctx.prop == "C08" and v.family != "merge") or (ctx.prop == "C10" and v.family != "combine"):
+        return
+    for h in v.by_role("UP"):
+        probs = []
+        for p in returning(v.arm(h, "Handshake")):
+            eq = [a for (_, a, _) in guards_before(p, len(p.events)) if a[0] == "cmp" and a[3] == "==" and counter_term(a[1]) and counter_term(a[1])[0] == "pre"]
+            greets = [s for s in send_sig(v, h, "Handshake", p) if s[1] == "Handshake" and s[0] == "SINK"]
+            if eq and len(greets) != 1:
+                probs.append("the member that wins the once-guard does not greet the sink on every path")
+        ctx.ob("REL-1:1", v.key(h, "Handshake", "REL-1:1", "guard-implies-greeting"), not probs, "winning the once-guard always leads to exactly one greeting" if not probs else probs[0], v.loc(h))
+
+
+def lemma_operator_panic_census(ctx, v):
+    """The C17 census restricted to one operator (used by the operator-specific properties: a new panic site in that operator
+    also breaks what the property says the operator does)."""
+    scope = {"C08": ("merge",), "C09": ("concat",), "C10": ("combine",), "C11": ("flatten",), "C12": ("share",), "C15": ("from_iter",), "C16": ("interval",), "C19": ("take",)}.get(ctx.prop)
+    if scope is None or v.family not in scope:
+        return
+    tbcells = v.talkback_cells()
+    per_site = {}
+    for (b, var, p, i, e, hint) in panic_sites(v):
+        cls, ok, why = discharge_panic(v, b, var, p, i, e, hint, tbcells)
+        k = (b, e.site, hint)
+        cur = per_site.get(k)
+        if cur is None or (cur[1] and not ok):
+            per_site[k] = (cls, ok, why, e)
+    bad = []
+    for (b, site, hint), (cls, ok, why, e) in per_site.items():
+        if not ok and not (v.family == "share" and cls == "K-init" and v.op.roles.get(b) == "DOWN"):   # KF-6 is C17's finding
+            bad.append("%s at %s: %s" % (hint, e.loc, why))
+    ctx.ob("CEN-P", "%s:CEN-P:operator" % v.name, not bad, "%d panic-capable sites of the operator are discharged" % len(per_site) if not bad else "; ".join(sorted(bad)[:3]), v.loc(v.op.id))
+
+
+for _pid in ("C01", "C02", "C03", "C04", "C05", "C08", "C09", "C10", "C11", "C12", "C14", "C15", "C16", "C19"):
+    _wrap(_pid, lemma_no_snapshot_capture)
+for _pid in ("C01", "C08", "C10", "C18"):
+    _wrap(_pid, lemma_fanin_guard_implies_greeting)
+for _pid in ("C08", "C09", "C10", "C11", "C12", "C15", "C16", "C19"):
+    _wrap(_pid, lemma_operator_panic_census)
